@@ -221,7 +221,7 @@ pub fn damage_bucket_bytes(cur: &[u8], dmg: &BDamage) -> Vec<u8> {
                 b.extend_from_slice(&frag);
             }
         }
-        BDamage::BecomeDir => {}
+        BDamage::BecomeDir | BDamage::BecomeSymlink => {}
         BDamage::GarbageTail { total, line, salt } => {
             let line = (*line).max(1);
             let mut k = 0u64;
@@ -252,6 +252,19 @@ pub fn damage_bucket(p: &Path, dmg: &BDamage) {
         if std::fs::symlink_metadata(p).map(|m| m.is_file()).unwrap_or(false) {
             let _ = std::fs::remove_file(p);
             let _ = std::fs::create_dir(p);
+        }
+        return;
+    }
+    if let BDamage::BecomeSymlink = dmg {
+        if std::fs::symlink_metadata(p).map(|m| m.file_type().is_file()).unwrap_or(false) {
+            // the copy lives outside the cache, in the harness's scratch directory next to it
+            let farm = p.ancestors().nth(4).and_then(|c| c.parent()).map(|r| r.join("scratch").join("bucket-farm")).unwrap_or_else(std::env::temp_dir);
+            let _ = std::fs::create_dir_all(&farm);
+            let copy = farm.join(p.file_name().unwrap_or_default());
+            if std::fs::copy(p, &copy).is_ok() {
+                let _ = std::fs::remove_file(p);
+                let _ = std::os::unix::fs::symlink(&copy, p);
+            }
         }
         return;
     }
